@@ -71,6 +71,12 @@ type clientState struct {
 
 // Run executes one Case.
 type Run struct {
+	encSt1     *recState
+	encNeedles map[string]string
+	encKeys    []string
+	encNKeyIDs int
+	encIVs    map[string]uint64 // C23: (data key id, IV) pairs seen so far
+	encKeyIDs map[uint64]bool
 	// swFlushing: StreamWriter.Flush is running. Flush calls readTs() on the oracle it has
 	// just stopped (a Begin nobody will ever process or match); those marks are not the new
 	// oracle's and are ignored by the watermark invariant.
@@ -215,11 +221,10 @@ func BadgerOptions(cfg *Config, dir, vdir string) badger.Options {
 	opt.SyncWrites = cfg.SyncWrites
 	opt.Compression = options.CompressionType(cfg.Compression)
 	if cfg.EncKeyLen > 0 {
-		k := make([]byte, cfg.EncKeyLen)
-		for i := range k {
-			k[i] = byte(i*7 + 1)
+		opt.EncryptionKey = encKey(cfg.EncKeyLen, cfg.EncKeyVariant)
+		if cfg.EncRotS > 0 {
+			opt.EncryptionKeyRotationDuration = time.Duration(cfg.EncRotS) * time.Second
 		}
-		opt.EncryptionKey = k
 	}
 	opt.BlockCacheSize = 0
 	if cfg.BlockCache || cfg.Compression != 0 || cfg.EncKeyLen > 0 {
@@ -416,6 +421,8 @@ func (r *Run) onEvent(gid int64, kind string, a, b uint64, key, val []byte) {
 		r.mu.Lock()
 		r.compactions++
 		r.mu.Unlock()
+	case "enc.iv":
+		r.onEncIV(key, a, b)
 	case "compact.l0l0":
 		// reach of the L0->L0 picker: how many idle, old-enough tables worker 0 found
 		r.probe("l0l0_attempts")
